@@ -420,9 +420,16 @@ def _parse_iso8601_duration(text: str, **options: str) -> Duration | None:
 def _fraction_us(digits: str, unit_seconds: int) -> int:
     """
     Microseconds in the decimal fraction "0.<digits>" of a unit of
-    unit_seconds seconds (computed like the compiled parser does).
+    unit_seconds seconds, rounded to the nearest microsecond (ties to even)
+    in exact arithmetic, like the compiled parser does.
     """
-    return round(int(digits) / 10 ** len(digits) * float(unit_seconds) * 1000000.0)
+    scale = 10 ** len(digits)
+    microseconds, remainder = divmod(int(digits) * unit_seconds * 1000000, scale)
+
+    if 2 * remainder > scale or (2 * remainder == scale and microseconds % 2):
+        microseconds += 1
+
+    return microseconds
 
 
 def _get_iso_8601_week(
